@@ -365,8 +365,111 @@ func runC12(cfg Config) {
 			monitor("WriteDedupQueue: more than one upstream StoreChunk for one ID in flight", caseLine)
 		}
 	}
+	// directed: a read that arrives while a write of the same chunk is in flight, with an earlier, slow read of
+	// that chunk (started before the chunk existed, it will answer "missing") still upstream: the late read
+	// overlaps the write and must see the chunk
+	for it := 0; it < cfg.N(40, 600); it++ {
+		st := &twoGateStore{getGate: make(chan struct{}), storeGate: make(chan struct{}), entered: make(chan string, 8), chunks: map[desync.ChunkID][]byte{}}
+		q := desync.NewWriteDedupQueue(st)
+		data := randBytes(rng, 24)
+		chunk := desync.NewChunk(data)
+		id := chunk.ID()
+		earlyReader := it%3 != 2
+		r1 := make(chan string, 1)
+		if earlyReader {
+			go func() {
+				_, err := q.GetChunk(id)
+				r1 <- fmt.Sprint(err)
+			}()
+			select {
+			case <-st.entered:
+			case <-time.After(5 * time.Second):
+			}
+		}
+		wres := make(chan error, 1)
+		go func() { wres <- q.StoreChunk(chunk) }()
+		select {
+		case <-st.entered:
+		case <-time.After(5 * time.Second):
+		}
+		r2 := make(chan string, 1)
+		go func() {
+			c, err := q.GetChunk(id)
+			if err != nil {
+				r2 <- "error: " + err.Error()
+				return
+			}
+			if c == nil {
+				r2 <- "neither a chunk nor an error"
+				return
+			}
+			b, _ := c.Data()
+			if !bytes.Equal(b, data) {
+				r2 <- "other bytes"
+				return
+			}
+			r2 <- "chunk"
+		}()
+		time.Sleep(time.Duration(500+rng.Intn(2500)) * time.Microsecond) // let the late reader find the write in flight
+		close(st.storeGate)
+		caseLine := fmt.Sprintf("writededup-directed it=%d early-reader=%v", it, earlyReader)
+		rep.Count(caseLine, true, "writededup-directed")
+		var late string
+		select {
+		case late = <-r2:
+		case <-time.After(3 * time.Second):
+			// the late reader may (legitimately) have joined the early read: release it
+			late = "blocked"
+		}
+		close(st.getGate)
+		if late == "blocked" {
+			select {
+			case late = <-r2:
+				late = "after the early read: " + late
+			case <-time.After(5 * time.Second):
+				late = "never returned"
+			}
+		}
+		<-wres
+		if late != "chunk" {
+			monitor("WriteDedupQueue: a read that arrived while a write of the same chunk was in flight did not see that chunk: "+late, caseLine)
+		}
+	}
 	rep.Write(cfg.Out)
 }
+
+// twoGateStore: GetChunk decides at entry (the chunk is not there yet), then blocks; StoreChunk blocks before storing
+type twoGateStore struct {
+	mu        sync.Mutex
+	getGate   chan struct{}
+	storeGate chan struct{}
+	entered   chan string
+	chunks    map[desync.ChunkID][]byte
+}
+
+func (s *twoGateStore) GetChunk(id desync.ChunkID) (*desync.Chunk, error) {
+	s.mu.Lock()
+	b, ok := s.chunks[id]
+	s.mu.Unlock()
+	s.entered <- "get"
+	<-s.getGate
+	if !ok {
+		return nil, desync.ChunkMissing{ID: id}
+	}
+	return desync.NewChunkWithID(id, b, false)
+}
+func (s *twoGateStore) HasChunk(id desync.ChunkID) (bool, error) { return false, nil }
+func (s *twoGateStore) StoreChunk(c *desync.Chunk) error {
+	s.entered <- "store"
+	<-s.storeGate
+	b, _ := c.Data()
+	s.mu.Lock()
+	s.chunks[c.ID()] = b
+	s.mu.Unlock()
+	return nil
+}
+func (s *twoGateStore) Close() error   { return nil }
+func (s *twoGateStore) String() string { return "two-gate" }
 
 type gatedWriteStore struct {
 	mu            sync.Mutex
